@@ -23,3 +23,141 @@ Qed.
 
 Theorem rect_contains_in_bbox r p : contains r p = true -> contains (rect_bbox r) p = true.
 Proof. intros H. exact H. Qed.
+
+(* ================= styled rectangle (rectangle/styled.rs, solid stroke) ================= *)
+From EG Require Import Proofs.Circlestyled.
+
+Definition rect_sok (r : rect) : Prop := point_sok (tl r) /\ size_sok (sz r).
+
+(* ---- Rectangle::offset, one dimension at a time ---- *)
+Definition off_ext (e n : Z) : Z := if 0 <=? n then sat_add_u32 e (n * 2) else sat_sub_u32 e ((- n) * 2).
+Definition off_start (s e n : Z) : Z := s + sat_sub_u32 e 1 / 2 - sat_sub_u32 (off_ext e n) 1 / 2.
+
+Lemma offset_1d r n :
+  offset r n = R (P (off_start (px (tl r)) (sw (sz r)) n) (off_start (py (tl r)) (sh (sz r)) n))
+                 (S (off_ext (sw (sz r)) n) (off_ext (sh (sz r)) n)).
+Proof.
+  unfold offset, with_center, center, center_offset, psub_size, padd_size, size_sat_sub, size_sat_add, off_start, off_ext.
+  destruct (0 <=? n); reflexivity.
+Qed.
+
+(* ---- the border arithmetic of draw_styled, one dimension at a time (styled.rs:240-283) ---- *)
+Definition b_top (W Se : Z) : Z := Z.min W (Se / 2).
+Definition b_bot (W Se : Z) : Z := Z.min W (Se - b_top W Se).
+Definition b_boty (W Se : Z) : Z := sat_sub_u32 Se (b_bot W Se).
+Definition b_left (W Se : Z) : Z := Z.min (W * 2) (Se + 1) / 2.
+Definition b_rightx (W Se : Z) : Z := sat_sub_u32 Se (b_left W Se).
+
+Definition rect_borders (sa : rect) (W Fh sc : Z) : list fill_call :=
+  let Sx := px (tl sa) in let Sy := py (tl sa) in let Sw := sw (sz sa) in let Sh := sh (sz sa) in
+  [(R (tl sa) (S Sw (b_top W Sh)), sc); (R (P (Sx + 0) (Sy + b_boty W Sh)) (S Sw (b_bot W Sh)), sc)] ++
+  (if 0 <? Fh
+   then [(R (P (Sx + 0) (Sy + b_top W Sh)) (S (b_left W Sw) Fh), sc);
+         (R (P (Sx + 0 + b_rightx W Sw) (Sy + b_top W Sh + 0)) (S (b_left W Sw) Fh), sc)]
+   else []).
+
+Lemma rect_draw_styled_eq r st :
+  rect_draw_styled r st =
+  (match fill_color st with Some fc => [(rect_fill_area r st, fc)] | None => [] end) ++
+  match effective_stroke_color st with
+  | None => []
+  | Some sc => rect_borders (rect_stroke_area r st) (stroke_width st) (sh (sz (rect_fill_area r st))) sc
+  end.
+Proof. reflexivity. Qed.
+
+Section OneDim.
+  Variables (s e out ins : Z).
+  Hypothesis He : 0 <= e <= sbound.
+  Hypothesis Hout : 0 <= out <= sbound.
+  Hypothesis Hins : 0 <= ins <= sbound.
+  Let S0 := off_start s e out.
+  Let Se := off_ext e out.
+  Let F0 := off_start s e (- ins).
+  Let Fe := off_ext e (- ins).
+  Let W := ins + out.
+
+  Lemma dim_forms :
+    Se = e + 2 * out /\ Fe = Z.max (e - 2 * ins) 0 /\
+    (1 <= e -> S0 = s - out) /\ (2 * ins < e -> F0 = s + ins).
+  Proof.
+    subst S0 Se F0 Fe W. unfold off_start, off_ext, sat_add_u32, sat_sub_u32, u32_max, sbound in *.
+    destruct (0 <=? out) eqn:E1, (0 <=? - ins) eqn:E2; lia.
+  Qed.
+
+  Lemma dim_basic : 0 <= Se /\ 0 <= Fe /\ (e = 0 -> Fe = 0).
+  Proof. destruct dim_forms as (E1 & E2 & _). lia. Qed.
+
+  (* the fill area has an extent in this dimension: borders of full width W on both sides of it *)
+  Lemma dim_open : 0 < Fe ->
+    b_top W Se = W /\ b_bot W Se = W /\ b_boty W Se = Se - W /\ b_left W Se = W /\ b_rightx W Se = Se - W /\
+    S0 + W = F0 /\ F0 + Fe = S0 + Se - W.
+  Proof.
+    destruct dim_forms as (E1 & E2 & E3 & E4). intros H.
+    assert (2 * ins < e) as Hi by lia. rewrite E3, E4 by lia. rewrite E1, E2 in *. clear E1 E2 E3 E4.
+    subst W. clearbody S0 Se F0 Fe.
+    assert (b_top (ins + out) (e + 2 * out) = ins + out) as Et by (unfold b_top; lia).
+    assert (b_bot (ins + out) (e + 2 * out) = ins + out) as Eb by (unfold b_bot; rewrite Et; lia).
+    assert (b_left (ins + out) (e + 2 * out) = ins + out) as El by (unfold b_left; lia).
+    unfold b_boty, b_rightx. rewrite Et, Eb, El. unfold sat_sub_u32. lia.
+  Qed.
+
+  (* the fill area is collapsed in this dimension: the two borders together cover the stroke area's extent *)
+  Lemma dim_closed : Fe = 0 ->
+    0 <= b_top W Se /\ 0 <= b_bot W Se /\ b_boty W Se <= b_top W Se /\ b_boty W Se + b_bot W Se = Se /\
+    0 <= b_left W Se /\ b_rightx W Se <= b_left W Se /\ (0 < W -> b_rightx W Se + b_left W Se = Se) /\ 0 <= b_rightx W Se
+    /\ 0 <= b_boty W Se /\ b_top W Se <= Se /\ b_left W Se <= Se.
+  Proof.
+    destruct dim_forms as (E1 & E2 & _). intros H.
+    assert (e <= 2 * ins) as Hi by lia. rewrite E1. clear E1 E2 H. subst W. clearbody S0 Se F0 Fe.
+    set (T := e + 2 * out). assert (0 <= T <= 2 * (ins + out)) as HT by lia. clearbody T.
+    set (V := ins + out) in *. assert (0 <= V) as HV by lia. clearbody V. clear - HT HV.
+    assert (b_top V T = T / 2) as Et by (unfold b_top; lia).
+    assert (b_bot V T = T - T / 2) as Eb by (unfold b_bot; rewrite Et; lia).
+    unfold b_boty, b_rightx. rewrite Et, Eb. unfold sat_sub_u32, b_left. lia.
+  Qed.
+End OneDim.
+
+Lemma contains_b r p :
+  contains r p = (px (tl r) <=? px p) && (px p <? px (tl r) + sw (sz r)) && (py (tl r) <=? py p) && (py p <? py (tl r) + sh (sz r)).
+Proof. apply eq_true_iff_eq. rewrite contains_spec. lia. Qed.
+
+Ltac rect_cases :=
+  repeat match goal with |- context [if ?b then _ else _] => destruct b eqn:? end; try reflexivity; exfalso; lia.
+
+(* C06 for the rectangle: the fill rectangle and the (up to) four border rectangles tile exactly
+   fill area / stroke area minus fill area, for every stroke width (also wider than the rectangle) *)
+Theorem rect_styled_spec r st p :
+  rect_sok r -> style_ok st -> stroke_kind st = Solid ->
+  render (rect_draw_styled r st) p =
+  styled_map (contains (rect_fill_area r st)) (contains (rect_stroke_area r st)) st p.
+Proof.
+  intros [Hp [Hw Hh]] Hs Hk.
+  destruct (stroke_split st Hs) as [Hsum _]. destruct (offsets_range st Hs) as (E1 & R1 & R2 & E2). rewrite Hk in E2.
+  rewrite rect_draw_styled_eq. unfold rect_stroke_area, rect_fill_area, styled_map, effective_stroke_color.
+  rewrite E1, E2, !offset_1d.
+  set (out := outside_stroke_width st) in *. set (ins := inside_stroke_width st) in *.
+  replace (stroke_width st) with (ins + out) by lia.
+  pose proof (dim_basic (px (tl r)) (sw (sz r)) out ins Hw R1 R2) as Bx.
+  pose proof (dim_open (px (tl r)) (sw (sz r)) out ins Hw R1 R2) as Ox.
+  pose proof (dim_closed (px (tl r)) (sw (sz r)) out ins Hw R1 R2) as Cx.
+  pose proof (dim_basic (py (tl r)) (sh (sz r)) out ins Hh R1 R2) as By.
+  pose proof (dim_open (py (tl r)) (sh (sz r)) out ins Hh R1 R2) as Oy.
+  pose proof (dim_closed (py (tl r)) (sh (sz r)) out ins Hh R1 R2) as Cy.
+  cbv zeta in *.
+  set (Sx := off_start (px (tl r)) (sw (sz r)) out) in *. set (Sw := off_ext (sw (sz r)) out) in *.
+  set (Fx := off_start (px (tl r)) (sw (sz r)) (- ins)) in *. set (Fw := off_ext (sw (sz r)) (- ins)) in *.
+  set (Sy := off_start (py (tl r)) (sh (sz r)) out) in *. set (Sh := off_ext (sh (sz r)) out) in *.
+  set (Fy := off_start (py (tl r)) (sh (sz r)) (- ins)) in *. set (Fh := off_ext (sh (sz r)) (- ins)) in *.
+  set (W := ins + out) in *.
+  clearbody Sx Sw Fx Fw Sy Sh Fy Fh W. clear Hp Hw Hh Hs Hk Hsum E1 E2 R1 R2.
+  destruct p as [a b]. unfold rect_borders. cbn [tl sz px py sw sh].
+  destruct (0 <? Fh) eqn:EF.
+  - assert (0 < Fh) as HF by lia. specialize (Oy HF). clear Cy.
+    destruct (Z_lt_le_dec 0 Fw) as [HFw|HFw]; [specialize (Ox HFw); clear Cx|assert (Fw = 0) as HFw0 by lia; specialize (Cx HFw0); clear Ox];
+    destruct (stroke_color st) as [sc|], (fill_color st) as [fc|], (0 <? W) eqn:EW;
+    unfold render; cbn [app fold_left fst snd]; rewrite ?contains_b; cbn [tl sz px py sw sh]; rect_cases.
+  - assert (Fh = 0) as HF by lia. specialize (Cy HF). clear Oy.
+    destruct (Z_lt_le_dec 0 Fw) as [HFw|HFw]; [specialize (Ox HFw); clear Cx|assert (Fw = 0) as HFw0 by lia; specialize (Cx HFw0); clear Ox];
+    destruct (stroke_color st) as [sc|], (fill_color st) as [fc|], (0 <? W) eqn:EW;
+    unfold render; cbn [app fold_left fst snd]; rewrite ?contains_b; cbn [tl sz px py sw sh]; rect_cases.
+Qed.
